@@ -428,6 +428,8 @@ func (c *Client) recv(keepaliveQuit chan<- struct{}) {
 		case stanza.StreamClosePacket:
 			// TCP messages should arrive in order, so we can expect to get nothing more after this occurs
 			c.transport.ReceivedStreamClose()
+			// The server has closed the stream: the session is over, whoever asked for it first.
+			c.disconnected(c.Session.SMState)
 			return
 		case stanza.Message, stanza.Presence, *stanza.IQ:
 			// Only stanzas count towards "h" (XEP-0198): not nonzas such as <a/>, stream features or SASL elements
